@@ -360,3 +360,9 @@ def unit_test(case):
         "merged = ' and '.join(p.merge_last_name_first for p in p1)\n"
         "assert [parse(n) for n in split(merged)] == p1, merged\n"
     )
+
+
+def ENV_SHARDS(tier):
+    """The broad, cheap families: run again in a fresh interpreter per environment (engine.run_environments)."""
+    return [s for s in shards('quick') if s[0] == "history" or (s[0] == "lists" and s[1] < 6)]
+
